@@ -116,7 +116,13 @@ pub fn suffix(prop: &str, step: Option<usize>) -> String {
                 Some(i) => v.get(i).copied().unwrap_or((false, false, false)),
                 None => (v.iter().any(|t| t.0), v.iter().any(|t| t.1), v.iter().any(|t| t.2)),
             };
-            format!("{}{}{}", if a { SUFFIX } else { "" }, if b { SUFFIX_CALL } else { "" }, if l { SUFFIX_LAST } else { "" })
+            // one history may show several causes; the signature names one, the last-instruction cause first
+            // (every signature listed for the other two is listed for it as well)
+            if l {
+                SUFFIX_LAST.to_string()
+            } else {
+                format!("{}{}", if a { SUFFIX } else { "" }, if b { SUFFIX_CALL } else { "" })
+            }
         }
     })
 }
